@@ -22,6 +22,9 @@ KINDS_C = ["ok", "rid+1", "rid-1", "rid0", "ridneg", "rid+2^32", "rid-2^32", "st
 KINDS_3 = ["ok", "rid+1", "rid-1", "rid0", "ridneg", "rid+2^32", "rid-2^32", "stale", "msgid", "msgid+2^32", "user", "engine", "version", "trunc", "late", "dup", "report",
            "report_engine", "report_user", "report_msgid", "rid+1_privflag0", "stale_privflag0", "user_empty_f4", "user_empty_f0", "echo_get", "echo_next", "echo_bulk"]
 ECHO = {"echo_get": B.PDU_GET, "echo_next": B.PDU_GETNEXT, "echo_bulk": B.PDU_GETBULK}
+# only in the random scripts (the exhaustive part is quadratic in the number of kinds): credentials that differ from the
+# session's by a tail of exactly 256 / 512 octets - equal for code that compares lengths in a u8 / prefix only
+KINDS_EXTRA = ["user+256", "user+512", "engine+256", "comm+256", "comm+512"]
 T_SHORT = 0.25
 
 
@@ -111,6 +114,20 @@ class Script:
                 # what a discovery Report's header looks like, around an ordinary answer
                 ov.update(user=b"", flags=4 if k.endswith("f4") else 0, mac="empty", encrypt=False)
                 d["creds"] = False
+            elif k in KINDS_EXTRA:
+                n = int(k.split("+")[1])
+                d["creds"] = False
+                if k.startswith("comm"):
+                    if req.version == 3:
+                        continue
+                    ov["community"] = req.m["community"] + b"q" * n
+                elif req.version != 3:
+                    continue
+                elif k.startswith("user"):
+                    ov["user"] = req.m["usm"]["user"] + b"q" * n
+                    ov["auth_user"] = agent.users.get(req.m["usm"]["user"])
+                else:
+                    ov["engine_id"] = agent.engine_id + bytes(n)
             elif k == "engine":
                 ov["engine_id"] = agent.engine_id + b"\x01"
                 d["creds"] = False
@@ -421,9 +438,9 @@ def gen_scripts(cfg, tier, rng):
         for p in itertools.product(per1, repeat=3):
             scripts.append((ops[len(scripts) % 4], [list(x) for x in p]))
     # random: 3..4 requests, 0..3 datagrams each
-    for _ in range(60 if tier == "quick" else 1500):
+    for _ in range(90 if tier == "quick" else 1500):
         n = rng.choice([3, 4])
-        scripts.append((rng.choice(ops), [[rng.choice(ks) for _ in range(rng.choice([0, 1, 1, 2, 3]))] for _ in range(n)]))
+        scripts.append((rng.choice(ops), [[rng.choice(ks + KINDS_EXTRA) for _ in range(rng.choice([0, 1, 1, 2, 3]))] for _ in range(n)]))
     return scripts
 
 
